@@ -173,8 +173,10 @@ def run_case(case):
         return out
     # the sealed document as a model: body as generated + the seal section as read back
     if not same(PM.strip_seal(m2), PM.strip_seal(sealed_model)):
-        cnt("tamper_skipped:sealed_text_reads_back_differently")
-        return out
+        # the emitted sealed text does not read back as the sealed document (a matter of C02/C04): tamper with the sealed document
+        # itself, rendered by the harness's own renderer, instead of giving up
+        cnt("tamper_base:sealed_model(text_reads_back_differently)")
+        m2 = sealed_model
     # ---- tampering -------------------------------------------------------------------------------------------
     muts = PM.mutations(m2, rng, cap=case["mut_cap"])
     ncorr = 0
